@@ -373,6 +373,40 @@ pub fn run(ctx: &Ctx, out: &mut Out) {
             p.push(("__raw__sep".into(), "---".into()));
             p.push(("batch_size".into(), "7".into()));
             extra.push(("second-document-with-batch_size-7".into(), Written { pairs: p, via_env }, false, Some(("batch_size", json!(7)))));
+            // keys that YAML does not type as strings are unknown keys all the same
+            for (nm, line) in [("integer", "16: batch_size"), ("integer-2", "8000: 1"), ("boolean", "true: on"), ("null", "~: 5"), ("float", "2.5: x"), ("list", "[a, b]: x"), ("map", "{a: b}: x")] {
+                let mut p = base.clone();
+                p.push(("__raw__k".into(), line.into()));
+                extra.push((format!("unknown-key-typed-{}", nm), Written { pairs: p, via_env }, true, None));
+            }
+            // a file longer than a few KiB (a long comment block): what is written after the block
+            // counts like anything else
+            let block: String = (0..80).map(|i| format!("# {:-<70}\n", i)).collect();
+            let mut p = vec![("__raw__c".to_string(), block.clone())];
+            p.extend(base.clone());
+            p.push(("batch_size".into(), "7".into()));
+            extra.push(("long-comment-block-first".into(), Written { pairs: p, via_env }, false, Some(("batch_size", json!(7)))));
+            let mut p = base.clone();
+            p.push(("__raw__c".into(), block.clone()));
+            p.push(("batch_size".into(), "9".into()));
+            extra.push(("setting-after-long-comment-block".into(), Written { pairs: p, via_env }, false, Some(("batch_size", json!(9)))));
+            let mut p = base.clone();
+            p.push(("__raw__c".into(), block.clone()));
+            p.push(("fault_percentage".into(), "90".into()));
+            extra.push(("out-of-range-after-long-comment-block".into(), Written { pairs: p, via_env }, true, None));
+            let mut p = base.clone();
+            p.push(("__raw__c".into(), block.clone()));
+            p.push(("no_such_setting".into(), "1".into()));
+            extra.push(("unknown-key-after-long-comment-block".into(), Written { pairs: p, via_env }, true, None));
+            // a number that straddles byte 4096 of the file
+            for pad in [4085usize, 4090, 4094] {
+                let mut p: Vec<(String, String)> = Vec::new();
+                let head = format!("interface: 127.0.0.1\nseed: {}\n", hex(&seed));
+                let fill = pad.saturating_sub(head.len() + "# \nport: ".len());
+                p.push(("__raw__h".into(), format!("{}# {}", head, "x".repeat(fill))));
+                p.push(("port".into(), port.to_string()));
+                extra.push((format!("port-straddling-byte-4096-pad{}", pad), Written { pairs: p, via_env }, false, Some(("port", json!(port)))));
+            }
             extra.push(("unknown-key".into(), Written { pairs: with(base.clone(), "no_such_setting", "1"), via_env }, true, None));
             extra.push(("unknown-key-typo".into(), Written { pairs: with(base.clone(), "batchsize", "8"), via_env }, true, None));
         }
@@ -382,6 +416,44 @@ pub fn run(ctx: &Ctx, out: &mut Out) {
             continue;
         }
         judge_refusal(ctx, out, &what, w, &seed, must_refuse, expect);
+    }
+    // a configuration FILE that happens to be called env / Env (only the exact argument "ENV"
+    // selects the environment): the file's settings count, not the ROUGHENOUGH_* variables the
+    // process also carries
+    if ctx.shard % 4 == 1 {
+        for name in ["env", "Env", "eNV", "ENV.cfg", "./ENV"] {
+            let dir = ctx.scratch.join(format!("envnamed-{}", fnv64(name.as_bytes()) % 1000));
+            std::fs::create_dir_all(&dir).ok();
+            let (pa, pb) = (free_port(false), free_port(false));
+            let file_name = name.trim_start_matches("./");
+            if name == "./ENV" {
+                // (written so that the argument is not the bare word)
+            }
+            let _ = std::fs::write(dir.join(file_name), format!("interface: 127.0.0.1\nport: {}\nseed: {}\nbatch_size: 8\n", pa, hex(&seed)));
+            let mut cmd = Command::new(std::env::current_exe().unwrap());
+            cmd.current_dir(&dir).args(["cfgprobe", name]);
+            cmd.env("ROUGHENOUGH_INTERFACE", "127.0.0.1").env("ROUGHENOUGH_PORT", pb.to_string()).env("ROUGHENOUGH_SEED", hex(&seed)).env("ROUGHENOUGH_BATCH_SIZE", "33").env("ROUGHENOUGH_FAULT_PERCENTAGE", "50");
+            let Ok((_, so, _, wd)) = run_with_timeout(cmd, Duration::from_secs(20)) else { continue };
+            if wd {
+                out.inconclusive("probe watchdog");
+                continue;
+            }
+            let txt = String::from_utf8_lossy(&so);
+            let probe: Value = serde_json::from_str(txt.lines().last().unwrap_or("")).unwrap_or(json!({"refused":"abnormal exit"}));
+            out.obs("probe_runs", 1);
+            out.obs("file_named_like_the_env_selector_cases", 1);
+            out.case(fnv64(format!("envnamed{}", name).as_bytes()), true);
+            let desc = json!({"kind":"config","what":format!("file named {}", name),"source":"file"});
+            if probe.get("refused").is_some() {
+                out.violation(&format!("C16 file refused-valid file-named-{}", name), &format!("a valid configuration file called {:?} is refused: {}", name, probe["refused"]), desc);
+            } else if probe["port"] != json!(pa) || probe["batch_size"] != json!(8) || probe["fault_percentage"] != json!(0) {
+                out.violation(
+                    &format!("C16 file settings-ignored file-named-{}", name),
+                    &format!("configuration file {:?} says port {} / batch_size 8 / no faults, effective: port {} batch_size {} fault_percentage {} (the environment said {} / 33 / 50)", name, pa, probe["port"], probe["batch_size"], probe["fault_percentage"], pb),
+                    desc,
+                );
+            }
+        }
     }
     // thorough: random in-range combinations, both sources, all getters compared
     {
